@@ -715,6 +715,12 @@ func (fc *followerController) handleSnapshot(stream proto.OxiaLogReplication_Sen
 	fc.Lock()
 	defer fc.Unlock()
 
+	if fc.isClosed() {
+		// The follower controller was closed before this goroutine got to run
+		fc.closeStreamNoMutex(constant.ErrAlreadyClosed)
+		return
+	}
+
 	// Look at the first chunk before wiping anything: a snapshot coming from the leader of another term
 	// (e.g. a deposed leader that has not noticed yet) must not destroy the log and the database
 	firstChunk, err := stream.Recv()
